@@ -2,7 +2,8 @@
     Property theorems only.  The request pipeline ([driver_prog]: WsgiApplication.handle_rpc and
     the ServerBase call sequence over generate_contexts / get_in_object / get_out_object /
     get_out_string / close, Application.process_request, MethodContext.__init__ / close, and the
-    order in which MethodContext.fire_event reaches the managers) is GENERATED from the source
+    order in which MethodContext.fire_event reaches the managers, what MethodDescriptor.__init__
+    puts into a descriptor's event_managers - and that nothing else writes to it) is GENERATED from the source
     on every run (Gen/Pipeline.v); [spec_ok], [wsgi_ok], [frame_ok] (C14/Spec.v) are the
     property text as a decision procedure on traces. *)
 From SpyneV Require Import C14.Model C14.Spec C14.Drivers C14.Sweep C14.OSetProofs C14.Proofs C14.ListenerProofs.
@@ -141,7 +142,7 @@ Definition ex_sc (fn : option exk) : scen :=
      sc_ser := None; sc_redirect := None; sc_after_on_fault := true; sc_doc_early := false; sc_opaque := false |}.
 Definition ex_run (drv : driver) (sc : scen) (b : beh) :=
   match reg_run world0 ex_prog with
-  | Some w => match desc_managers w ex_desc with
+  | Some w => match desc_managers g_desc_parts w ex_desc with
               | Some dms => Some (run (fire_world g_ctx_fire_parts w dms b) sc (driver_prog drv))
               | None => None
               end
@@ -190,7 +191,7 @@ Proof. vm_compute. repeat split; reflexivity. Qed.
     application, method manager, service class; listener 20 raising cuts the calls after it *)
 Example C14_ex_order :
   match reg_run world0 ex_prog with
-  | Some w => match desc_managers w ex_desc with
+  | Some w => match desc_managers g_desc_parts w ex_desc with
               | Some dms =>
                   handlers_reached g_ctx_fire_parts w dms TCtx Ecall true = [1; 2; 20; 10; 11]
                   /\ handlers_reached g_ctx_fire_parts w dms TCtx Ecall false = [1; 2]
